@@ -508,6 +508,14 @@ def _run_paramstyle(case: dict, env: core.Env) -> None:
         o2 = core.run_stmt(c2.cursor(), f"SELECT {ph(second, 0)} AS X", bind(second, ["it's 100%"]))
         if not o2["ok"] or o2["rows"] != [("it's 100%",)]:
             env.witness(f"C08/paramstyle/new-connection-ignores-configured-style/{first}-then-{second}", f"{o2.get('exc') or o2.get('rows')}")
+        # the paramstyle argument of connect() outranks the module-level setting
+        if hasattr(fs, "connect"):
+            arg_style = "qmark" if second != "qmark" else "pyformat"
+            c3 = fs.connect("db1", "s1", paramstyle=arg_style)
+            s3 = "qmark" if arg_style == "qmark" else "pyformat_seq"
+            o4 = core.run_stmt(c3.cursor(), f"SELECT {ph(s3, 0)} AS X, {ph(s3, 1)} AS Y", bind(s3, ["arg 100%", 5]))
+            if not o4["ok"] or o4["rows"] != [("arg 100%", 5)]:
+                env.witness(f"C08/paramstyle/connect-argument-ignored/{arg_style}-under-module-{second}", f"{o4.get('exc') or o4.get('rows')}")
         # and the first connection is still on its own style
         o3 = core.run_stmt(c1.cursor(), f"SELECT {ph(first, 0)} AS X", bind(first, ["again"]))
         if not o3["ok"] or o3["rows"] != [("again",)]:
